@@ -560,15 +560,23 @@ def run(prog, rep):
         at_creation = False
         if typearg is not None:
             ta = strip_casts(c["args"][typearg])
-            tv = cv(ta)
-            if tv is not None and tv & SOCK_CLOEXEC:
-                at_creation = True
+
+            def has_flag(e):
+                e = strip_casts(e)
+                if e is None:
+                    return False
+                if cv(e) is not None:
+                    return bool(cv(e) & SOCK_CLOEXEC)
+                return e["k"] == "bin" and e["op"] == "|" and (has_flag(e["l"]) or has_flag(e["r"]))
+            if has_flag(ta):
+                at_creation = True              # `socket (family, native_type | SOCK_CLOEXEC, protocol)`
             elif ta is not None and ta["k"] == "ref":
-                # `native_type |= SOCK_CLOEXEC` dominating the call, no plain assignment in between
+                # `native_type |= SOCK_CLOEXEC` (or `native_type = ... | SOCK_CLOEXEC`) dominating the call, no plain assignment without the
+                # flag in between
                 for bb, ii, n in fn.nodes():
-                    if n["k"] == "asg" and n["op"] == "|=" and root_var(n["l"]) == ta["name"] and (cv(n["r"]) or 0) & SOCK_CLOEXEC \
+                    if n["k"] == "asg" and n["op"] in ("|=", "=") and strip_casts(n["l"])["k"] == "ref" and root_var(n["l"]) == ta["name"] and has_flag(n["r"]) \
                             and fn.pos_dominates((bb.id, ii), (b.id, i)):
-                        later = [(b2, i2) for b2, i2, n2 in fn.nodes() if n2["k"] == "asg" and n2["op"] == "=" and root_var(n2["l"]) == ta["name"]
+                        later = [(b2, i2) for b2, i2, n2 in fn.nodes() if n2["k"] == "asg" and n2["op"] == "=" and root_var(n2["l"]) == ta["name"] and not has_flag(n2["r"])
                                  and fn.pos_dominates((bb.id, ii), (b2.id, i2)) and (b2.id, i2) != (bb.id, ii)]
                         if not later:
                             at_creation = True
@@ -772,6 +780,9 @@ def run(prog, rep):
 RENAME_LOCALS = ['src/psocket.c']
 
 SELFTEST = [
+    dict(id="socket-cloexec-flag-in-the-call-neutral", file="src/psocket.c", expect=None, edits=[
+        dict(file="src/psocket.c", old="#ifdef SOCK_CLOEXEC\n\tnative_type |= SOCK_CLOEXEC;\n#endif\n", new=""),
+        dict(file="src/psocket.c", old="socket (family, native_type, protocol)", new="socket (family, native_type | SOCK_CLOEXEC, protocol)")]),
     dict(id="socket-created-without-cloexec-flag", file="src/psocket.c", expect="C10.6",
          old="#ifdef SOCK_CLOEXEC\n\tnative_type |= SOCK_CLOEXEC;\n#endif\n", new=""),
     dict(id="check-connect-result-through-helper-neutral", expect=None, edits=[
